@@ -7,7 +7,7 @@
 From Coq Require Import String.
 From Coq Require Import List Arith ZArith.
 Import ListNotations.
-From YP Require Import Base.Str Term.Term Term.Show Engine.Db Engine.DbCursor Engine.DbCursorThms Engine.DbClear Engine.DbRetractOrder Engine.DbFacts Engine.DbProg Engine.DbProgThms Engine.RunDbProg Engine.DbProgInv Engine.DbProgSim Engine.DbProgCut.
+From YP Require Import Base.Str Term.Term Term.Show Engine.Db Engine.DbCursor Engine.DbCursorThms Engine.DbClear Engine.DbRetractOrder Engine.DbFacts Engine.DbProg Engine.DbProgThms Engine.RunDbProg Engine.DbProgInv Engine.DbProgSim Engine.DbProgCut Engine.DbProgMeta Engine.DbProgMetaThms Engine.RunDbProgMeta.
 
 (* "A goal that enumerates the dynamic facts of a predicate works on the facts as they were when the
    goal started: additions and removals made while the enumeration is suspended do not change which
@@ -331,3 +331,55 @@ Example C14_clear_while_retract_suspended :
     outs_of 1 evs outs = [ORet (p, 1) 3 [TInt 2%Z]; OEnd] /\
     removed outs = [0; 3].
 Proof. eexists. eexists. split; [vm_compute; reflexivity|]. repeat split. Qed.
+
+(* ---- round 6: compiled code that reaches the database THROUGH META-CALLS (Engine/DbProgMeta.v, see Properties/C07.v) ----
+   For every program, body (call/N, once/1, findall/3 to any depth, goals in bound variables), store, state, fuel. *)
+Theorem C14_meta_no_lost_update : forall uf prog n gs s g g' a tr fl,
+  ids_ok (gdb g) (gid g) -> msolve uf prog n gs s g = Some (g', a, tr, fl) ->
+  valid_trace (gdb g) (gid g) tr /\ (forall k, gdb g' k = apply_outs tr (gdb g) k) /\ ids_ok (gdb g') (gid g').
+Proof. exact mprog_no_lost_update. Qed.
+Print Assumptions C14_meta_no_lost_update.
+
+Theorem C14_meta_retract_at_most_once : forall uf prog n gs s g g' a tr fl,
+  ids_ok (gdb g) (gid g) -> msolve uf prog n gs s g = Some (g', a, tr, fl) -> NoDup (removed tr).
+Proof. exact mprog_retract_at_most_once. Qed.
+Print Assumptions C14_meta_retract_at_most_once.
+
+(* findall(T, G, B), R (no facts and no clauses under findall/3): G runs to completion first - a run of its own with an
+   empty continuation, from the state in which findall was reached: every goal G suspends is resumed to its end inside
+   it - and its updates t1 are a block of the trace in front of everything the rest R does; R starts in the database
+   the block leaves, under the caller's bindings extended by the unification of the bag only *)
+Theorem C14_meta_findall_runs_to_completion : forall uf prog n tm gl bag r s g g' a tr c,
+  clauses_of prog (d "findall") 3 = [] -> gdb g (d "findall", 3) = [] ->
+  msolve uf prog (S n) (GCall (d "findall") [tm; gl; bag] :: r) s g = Some (g', a, tr, c) ->
+  exists nm args g0 g1 answers t1 c1 copies n2,
+    call_target s gl [] = Some (nm, args) /\
+    (forall k, gdb g0 k = gdb g k) /\ gid g0 = gid g /\
+    msolve uf prog n [GCall nm args] s g0 = Some (g1, answers, t1, c1) /\
+    copy_each tm answers (gn g1) = (copies, n2) /\ length copies = length answers /\
+    match Unify.Fast.unify_fast uf s bag (mk_list copies) with
+    | Unify.Unify.UOk s' => exists t2, tr = t1 ++ t2 /\ msolve uf prog n r s' (set_n g1 n2) = Some (g', a, t2, c)
+    | Unify.Unify.UFail => tr = t1 /\ a = [] /\ g' = set_n g1 n2
+    | _ => False
+    end.
+Proof. exact findall_block. Qed.
+Print Assumptions C14_meta_findall_runs_to_completion.
+
+(* non-vacuity:  init :- assertz(p(a)), assertz(p(b)), assertz(c(0)), assertz(c(5)).
+     bump :- once(retract(c(N))), assertz(c(s(N))).         (the retract is left after its first answer: one counter per call)
+     w(X,L) :- p(X), findall(Y, retract(p(Y)), L), assertz(p(X)).    (p(X) suspended around a findall that drains p)
+     z(X) :- p(X), G = retract(p(X)), call(G), call(assertz(), p(f(X))).
+   queries init, bump, bump, w(X,L), z(X): c/1 = [s(0), s(5)]; w visits its snapshot [a,b]: (a,[a,b]) then (b,[a]) - the
+   first findall removed b, yet the suspended p(X) still visits it, and the second findall sees only the p(a) asserted
+   meanwhile; z: X = b, p/1 = [f(b)]; 9 Answers created *)
+Example C14_meta_programs :
+  let p x := TFun (d "p") [x] in let c x := TFun (d "c") [x] in let a := TAtom (d "a") in let b := TAtom (d "b") in
+  show (run_prog_meta 100 50 1000
+    [mkcl (d "init") 0 [] [GAssert false (p a); GAssert false (p b); GAssert false (c (TInt 0)); GAssert false (c (TInt 5))];
+     mkcl (d "bump") 1 [] [GCall (d "once") [TFun (d "retract") [c (TVar 0)]]; GAssert false (c (TFun (d "s") [TVar 0]))];
+     mkcl (d "w") 3 [TVar 0; TVar 1] [GCall (d "p") [TVar 0]; GCall (d "findall") [TVar 2; TFun (d "retract") [p (TVar 2)]; TVar 1]; GAssert false (p (TVar 0))];
+     mkcl (d "z") 2 [TVar 0] [GCall (d "p") [TVar 0]; GUnify (TVar 1) (TFun (d "retract") [p (TVar 0)]); GCall (d "call") [TVar 1];
+                              GCall (d "call") [TFun (d "assertz") []; p (TFun (d "f") [TVar 0])]]]
+    [(d "init", [], 0); (d "bump", [], 0); (d "bump", [], 0); (d "w", [TVar 0; TVar 1], 2); (d "z", [TVar 0], 1)] [(d "p", 1); (d "c", 1)])
+  = "((({answers} (())) ({answers} (())) ({answers} (())) ({answers} (((0 {a}) (4 {.} ((0 {a}) (4 {.} ((0 {b}) (0 {[]})))))) ((0 {b}) (4 {.} ((0 {a}) (0 {[]})))))) ({answers} (((0 {b}))))) ((((4 {f} ((0 {b}))))) (((4 {s} ((1 0)))) ((4 {s} ((1 5)))))) 9)"%string.
+Proof. vm_compute. reflexivity. Qed.
